@@ -90,3 +90,10 @@ claim(
     "Regex semantics and URL parsing results are trusted.",
     "access-path write-set (effect) analysis with context-sensitive inlining; affine canonicalisation of the tie-break literal; shape matching of Rule",
 )
+claim(
+    "C12",
+    "proof",
+    "'Leaves the store unchanged' decided for every program: the set of writers is computed (SQL DML/DDL sites, peewee write chains / save(), writes below the memory containers found by the effect analysis, closed under 'calls a writer') and is disjoint from everything reachable from query() in the resolved call graph (function registry, both decorator wrappers, token-class dispatch, aw_transform). In-place annotating/clearing/re-timing transforms act on copies: the read methods reachable from queries return nothing that shares an object with the store (OWN-OUT). query_bucket / query_bucket_eventcount are literally a direct windowed read over the query's start and end of the function's own bucket argument, with no limit.",
+    "Trusted: call resolution of the program model (calls it cannot resolve inside the reachable set are listed in evidence; they are builtins / third-party calls on values that are not the datastore), C01's trusted base. A vanished must-reach / must-write anchor is exit 2, so the zero-expected rule cannot pass vacuously.",
+    "computed writer set ∩ call-graph reachability (type-resolved callees, registry and decorator dispatch) + points-to OWN-OUT + reaching-definition check of the window arguments",
+)
